@@ -22,7 +22,7 @@ def run(res):
     # the closed system with crashes (Model/PoolCrash.v): random schedules of client, pipes, workers, kills,
     # passes and clock; the real parent-side code against the model whose liveness and exactness are proved
     pc.crash_closed_check(res, 'C04', 60 if res.tier == 'quick' else 1200)
-    pc.real_scenarios(res, 'C04', [dict(kind='worker_lost', sig=9), dict(kind='worker_lost', sig=11)] if res.tier == 'quick' else [dict(kind='worker_lost', sig=s) for s in (9, 11, 6, 15, 4, 8)])
+    pc.real_scenarios(res, 'C04', [dict(kind='worker_lost', sig=9), dict(kind='worker_lost', sig=11), dict(kind='worker_lost', sig=15, slow_release=True)] if res.tier == 'quick' else [dict(kind='worker_lost', sig=s) for s in (9, 11, 6, 15, 4, 8)] + [dict(kind='worker_lost', sig=15, slow_release=True), dict(kind='worker_lost', sig=6, slow_release=True)])
     res.assumptions += pc_assumptions()
 
 
